@@ -347,6 +347,47 @@ class Wire(object):
             cur.pos = start + es * m.size
         return v
 
+    # ------------------------------------------------------------------ domain
+    def domain_errors(self, tname, v, path=''):
+        """Problems that put a value outside the schema's value space (limits, ranges, enumerators, arms)."""
+        r = self.s.resolve(tname)
+        out = []
+        if isinstance(r, str):
+            if r in INTS:
+                w, signed = INTS[r]
+                lo, hi = (-(1 << (8 * w - 1)), (1 << (8 * w - 1)) - 1) if signed else (0, (1 << (8 * w)) - 1)
+                if not isinstance(v, int) or not lo <= v <= hi:
+                    out.append('%s: %r out of %s range' % (path, v, r))
+            return out
+        if r.kind == 'enum':
+            if v not in [x[1] for x in r.members]:
+                out.append('%s: %r is not an enumerator of %s' % (path, v, r.name))
+            return out
+        if r.kind == 'union':
+            arms = [a for a in r.arms if a[2] == v[0]]
+            if not arms:
+                return ['%s: unknown arm %r' % (path, v[0])]
+            return self.domain_errors(arms[0][1], v[1], path + '.' + v[0])
+        for m in r.members:
+            if m.name not in v:
+                continue
+            x = v[m.name]
+            p = path + '.' + m.name
+            if m.kind == PLAIN:
+                out += self.domain_errors(m.type, x, p)
+            elif m.kind == OPTIONAL:
+                if x is not None:
+                    out += self.domain_errors(m.type, x, p)
+            else:
+                if m.kind == FIXED and len(x) != m.size:
+                    out.append('%s: fixed array length %d != %d' % (p, len(x), m.size))
+                if m.kind == LIMITED and len(x) > m.size:
+                    out.append('%s: %d elements over limit %d' % (p, len(x), m.size))
+                if m.type != 'byte':
+                    for i, e in enumerate(x):
+                        out += self.domain_errors(m.type, e, '%s[%d]' % (p, i))
+        return out
+
     # ------------------------------------------------------------------ render
     def render(self, tname, value):
         """Text of C18 for a struct/union value."""
